@@ -49,6 +49,11 @@ def fn_ref(f):
     return "%s [%s sha256:%s]" % (name, os.path.relpath(path, REPO) if path.startswith(REPO) else path, file_sha(path))
 
 
+def file_ref(path, what=""):
+    """source file + hash of code that is encoded from a non-Python source (C++ AST)"""
+    return "%s [%s sha256:%s]" % (what or "source", os.path.relpath(path, REPO) if path.startswith(REPO) else path, file_sha(path))
+
+
 # ----------------------------------------------------------------------------- known findings
 def load_known():
     p = os.path.join(VERIF, "known_findings.json")
